@@ -12,12 +12,15 @@ import (
 //	bool, int64, float64, string           concrete scalars
 //	*Term                                   symbolic bool / int / string
 //	Ptr, Struct, Array, Slice, *Map, Iface, *Closure, *ssa.Function, *ssa.Builtin, Tuple, *MapIter
+//	abstract environment values (absInvoker implementations, TimeVal, ...)
 type Value interface{}
 
 type Obj struct {
-	ID    int
-	Site  string
-	Epoch int
+	ID     int
+	Site   string
+	Epoch  int  // 0 = harness/setup, 1 = under test
+	Frozen bool // write-set monitor: stores into this object are violations
+	Shared bool // lock-set monitor: object existed before the concurrent calls
 }
 
 type Ptr struct {
@@ -83,7 +86,32 @@ func copyVal(v Value) Value {
 	return v
 }
 
+// assignCell stores v into *dst; aggregates are assigned element-wise in place so that
+// pointers to fields/elements obtained earlier stay valid.
+func assignCell(dst *Value, v Value) {
+	switch x := v.(type) {
+	case Struct:
+		if d, ok := (*dst).(Struct); ok && len(d) == len(x) {
+			for i := range x {
+				assignCell(&d[i], x[i])
+			}
+			return
+		}
+	case Array:
+		if d, ok := (*dst).(Array); ok && len(d) == len(x) {
+			for i := range x {
+				assignCell(&d[i], x[i])
+			}
+			return
+		}
+	}
+	*dst = copyVal(v)
+}
+
 func (ex *Exec) zero(t types.Type) Value {
+	if z, ok := absZero(t); ok {
+		return z
+	}
 	switch u := t.Underlying().(type) {
 	case *types.Basic:
 		switch {
@@ -130,6 +158,8 @@ func (ex *Exec) zero(t types.Type) Value {
 			tu[i] = ex.zero(u.At(i).Type())
 		}
 		return tu
+	case *types.TypeParam:
+		return nil
 	}
 	panic(fmt.Sprintf("zero: unsupported type %s", t))
 }
@@ -147,6 +177,11 @@ func isIntType(t types.Type) bool {
 func isBoolType(t types.Type) bool {
 	b, ok := t.Underlying().(*types.Basic)
 	return ok && b.Info()&types.IsBoolean != 0
+}
+
+func isFloatType(t types.Type) bool {
+	b, ok := t.Underlying().(*types.Basic)
+	return ok && b.Info()&types.IsFloat != 0
 }
 
 // term conversions
@@ -213,4 +248,17 @@ func wrapInt(v int64, t types.Type) int64 {
 		return int64(uint32(v))
 	}
 	return v
+}
+
+func typeName(t types.Type) string {
+	if p, ok := t.(*types.Pointer); ok {
+		return "*" + typeName(p.Elem())
+	}
+	if n, ok := t.(*types.Named); ok {
+		if n.Obj().Pkg() != nil {
+			return n.Obj().Pkg().Path() + "." + n.Obj().Name()
+		}
+		return n.Obj().Name()
+	}
+	return t.String()
 }
